@@ -642,6 +642,9 @@ WBXML_DECLARE(WB_BOOL) wbxml_buffer_hex_to_binary(WBXMLBuffer *buffer)
     if ((buffer == NULL) || buffer->is_static)
         return FALSE;
 
+    if (wbxml_buffer_len(buffer) == 0)
+        return TRUE;
+
     p = buffer->data;
     len = wbxml_buffer_len(buffer);
 
